@@ -176,7 +176,7 @@ class Projector:
         exp = {
             "files": False, "mayChange": [], "mustChange": [],
             "sites": False, "siteMay": {}, "siteMust": {}, "exit": -1,
-            "sel": False, "queues": [],
+            "sel": False, "queues": [], "faults": False, "mustFail": [],
         }
         ein = self.expect_in
         if "mayChange" in ein:
@@ -187,6 +187,9 @@ class Projector:
             exp["sites"] = True
             exp["siteMay"] = {self.tok(r): list(v) for r, v in ein["siteMay"].items()}
             exp["siteMust"] = {self.tok(r): list(v) for r, v in ein.get("siteMust", {}).items()}
+        if "mustFail" in ein:
+            exp["faults"] = True
+            exp["mustFail"] = [{"c": c, "f": self.tok(f)} for c, f in ein["mustFail"]]
         if "queues" in ein:
             exp["sel"] = True
             exp["queues"] = [list(q) for q in ein["queues"]]
@@ -206,6 +209,8 @@ class Projector:
                 out.append({"ev": "CodemodStart", "c": e["c"]})
             elif k == "FileBegin":
                 out.append({"ev": "FileBegin", "f": self.tok(e["f"]), "pre": self.ver_of_key(e["pre"])})
+            elif k == "EnvChange":
+                out.append({"ev": "EnvChange", "f": self.tok(e["f"]), "post": self.ver_of_key(e["post"])})
             elif k == "FileEnd":
                 out.append(self._file_end(e))
             elif k == "Merge":
@@ -267,7 +272,7 @@ class Projector:
             outcome = "changed"
         else:
             outcome = "unchanged"
-        new = pre
+        new = post  # no changeset: the version "reported" is whatever is on disk (checked to be the untouched one)
         nchanges = 0
         lines_ok = desc_ok = path_ok = True
         sites: list[int] = []
@@ -308,6 +313,7 @@ class Projector:
             "ev": "FileEnd", "f": self.tok(rel), "o": outcome, "new": new, "post": post,
             "nchanges": nchanges, "nchangesets": len(css), "linesOk": lines_ok, "descOk": desc_ok, "pathOk": path_ok,
             "sites": sites, "clines": clines,
+            "unfixedAll": (e.get("nresults") is None) or len(e.get("unfixed") or []) >= (e.get("nresults") or 0),
         }
 
     def _deps(self, e: dict) -> dict:
